@@ -26,13 +26,16 @@ fn build(ch: &mut Chooser, table: &[SstString]) -> (Vec<u8>, Vec<((u32, u32), Da
         let o = &table[table.len() - 1 - i];
         if !o.text.is_empty() { exp.push(((i as u32, 2), Data::String(o.text.clone()))); }
     }
-    let lab = "l\u{e4}b";
+    // inline texts are not limited to 255 characters: the count is a 16-bit field
+    let long = ch.flag("label-and-formula-string-of-300-characters");
+    let lab: String = if long { format!("l\u{e4}b{}", "x".repeat(297)) } else { "l\u{e4}b".into() };
     let lw = ch.flag("label-16bit");
-    cells.push(BCell::Label { r: n, c: 1, xf: 0, text: lab.into(), wide: lw });
-    exp.push(((n as u32, 1), Data::String(lab.into())));
+    cells.push(BCell::Label { r: n, c: 1, xf: 0, text: lab.clone(), wide: lw });
+    exp.push(((n as u32, 1), Data::String(lab)));
     let fw = ch.flag("formula-string-16bit");
-    cells.push(BCell::Formula { r: n + 1, c: 0, xf: 0, res: FRes::Str("f\u{f6}rm".into(), fw), rgce: vec![0x1E, 1, 0] });
-    exp.push(((n as u32 + 1, 0), Data::String("f\u{f6}rm".into())));
+    let fs: String = if long { format!("f\u{f6}rm{}", "y".repeat(296)) } else { "f\u{f6}rm".into() };
+    cells.push(BCell::Formula { r: n + 1, c: 0, xf: 0, res: FRes::Str(fs.clone(), fw), rgce: vec![0x1E, 1, 0] });
+    exp.push(((n as u32 + 1, 0), Data::String(fs)));
     cells.sort_by_key(|c| match c { BCell::LabelSst { r, c, .. } | BCell::Label { r, c, .. } | BCell::Formula { r, c, .. } => (*r, *c), _ => (0, 0) });
     let name = "Sh\u{e9}et";
     let mut sheet = BSheet::new(name, cells);
